@@ -347,8 +347,8 @@ func (bucket *Bucket) doExpiration() {
 
 	debug("EXP: Running scheduled expiration...")
 	if n, err := bucket.expireDocuments(); err != nil {
-		// If there's an error expiring docs, it means there is a programming error of a leaked expiration goroutine.
-		panic("Error expiring docs: " + err.Error())
+		// The timer can fire while the bucket is being closed; that must not take the process down.
+		logError("Error expiring docs: %v", err)
 	} else if n > 0 {
 		info("Bucket %s expired %d docs", bucket, n)
 	}
